@@ -155,8 +155,19 @@ func (w *World) mutateConfig(latest raft.VConfig) raft.VConfig {
 					}
 				}
 			}
-		case 9: // malformed: stale index, bad address, invalid action combination, all voters leaving
-			switch w.Rng.Intn(4) {
+		case 9: // malformed: stale index, bad address, invalid action combination, undefined action, all voters leaving
+			switch w.Rng.Intn(5) {
+			case 4:
+				if len(c.Nodes) > 0 {
+					i := w.Rng.Intn(len(c.Nodes))
+					if w.chance(50) {
+						i = findNode(&c, w.Self)
+						if i < 0 {
+							i = 0
+						}
+					}
+					c.Nodes[i].Action = uint64(5 + w.Rng.Intn(5)) // not one of the five defined actions (finding F16)
+				}
 			case 0:
 				c.Index = sub(c.Index, 1)
 			case 1:
